@@ -79,13 +79,16 @@ End == /\ Ev("end") /\ Consume
        /\ lresults = lcalls /\ closereturns = closes /\ closes >= 1 /\ done
        /\ \A k \in caps : k \in Range(shut)
        /\ UNCHANGED <<hostile, reacted, lcalls, lresults, closes, closereturns, done, tclosed, shut, caps, hostileq, localuse>>
-Passive == /\ (Ev("app-start") \/ Ev("app-cancelled") \/ Ev("reported") \/ Ev("fault") \/ Ev("quiesce") \/ Ev("l-bootstrap")
-               \/ Ev("l-handle") \/ Ev("l-release") \/ Ev("peer-deliver") \/ Ev("peer-echo") \/ Ev("held") \/ Ev("hold-expired") \/ Ev("released"))
+\* the application keeps a reference to a capability it was handed (e = -1: not an import, i.e. a capability of this vat)
+LHandle == /\ Ev("l-handle") /\ Consume /\ localuse' = (localuse \/ E.e = 0 - 1)
+           /\ UNCHANGED <<hostile, reacted, lcalls, lresults, closes, closereturns, done, tclosed, shut, caps, hostileq>>
+Passive == /\ (Ev("app-start") \/ Ev("app-cancelled") \/ Ev("reported") \/ Ev("fault") \/ Ev("quiesce") \/ Ev("quiesce-refs") \/ Ev("l-bootstrap")
+               \/ Ev("l-release") \/ Ev("peer-deliver") \/ Ev("peer-echo") \/ Ev("held") \/ Ev("hold-expired") \/ Ev("released") \/ Ev("l-cancel"))
            /\ Consume /\ UNCHANGED <<hostile, reacted, lcalls, lresults, closes, closereturns, done, tclosed, shut, caps, hostileq, localuse>>
 \* there is no action for: "send-after-close", "close-hung", "not-done", a "view" that is not free
 
 Next == Reset \/ Hostile \/ Send \/ Recv \/ LCall \/ LResult \/ AppReturn \/ Shutdown \/ Close \/ CloseReturned
-        \/ TransportClosed \/ Done \/ View \/ End \/ Passive
+        \/ TransportClosed \/ Done \/ View \/ End \/ Passive \/ LHandle
 Spec == Init /\ [][Next]_vars
 
 ASSUME TLCSet(1, 0)
